@@ -158,14 +158,38 @@ def explore_onestep(case):
             for lo, hi in harvest.walk(prog, mk, mags):
                 res.add_set("harvested_boundaries", "%s dt=%g |w|=%r|%r" % (config, dt, lo, hi))
                 ws += [ax * lo, ax * hi]
+            # windows that open and close between two magnitudes (e.g. around every whole turn |w| dt = 2 pi k): followed on the margins
+            if ax is axes[0]:
+                for lo, hi in harvest.margin_walk(prog, mk, [m_ for m_ in mags if m_ >= 1e-3], per_cell=48):
+                    res.add_set("harvested_boundaries", "%s dt=%g |w| window %r|%r" % (config, dt, lo, hi))
+                    ws += [ax * lo, ax * hi]
     for m in mags:
         for ax in (axes if tier == "thorough" else [axes[0], axes[3], axes[6]]):
             ws.append(ax * m)
+    # relation rays: the specific force swept from parallel to the rate axis to perpendicular and anti-parallel (nearly parallel inputs);
+    # comparison outcome changes of the compiled step along the sweep are bisected, both sides become (a, w) pairs
+    pairs = [(a, w) for a in A_MENU for w in ws]
+    if dt > 0:
+        phi_grid = [0.0, 1e-12, 1e-9, 1e-6, 1e-4, 1e-2, 0.3, 1.2, math.pi / 2, math.pi - 1e-2, math.pi - 1e-6, math.pi]
+        for wmag in (1.2, 1e-3 / dt if dt < 1 else 1e-3):
+            wv = axes[6] * wmag
+            nv = np.cross(axes[6], axes[3])
+            nv = nv / np.linalg.norm(nv)
+
+            def a_of(phi):
+                return 9.81 * (math.cos(phi) * axes[6] + math.sin(phi) * nv)
+
+            def mk2(phi, wv=wv):
+                return [list(x0s[1]), list(a_of(phi)), list(wv), [9.8], [dt]]
+            for lo, hi in harvest.walk(prog, mk2, phi_grid):
+                res.add_set("harvested_boundaries", "%s dt=%g angle(a,w)=%r|%r" % (config, dt, lo, hi))
+                pairs += [(a_of(lo), wv), (a_of(hi), wv)]
+            pairs += [(a_of(1e-3), wv), (a_of(3e-4), wv)]  # a fixed pair of nearly parallel members as well
     seen = set()
     for x0 in x0s:
         p0, v0, R0 = split(config, x0)
-        for a in A_MENU:
-            for w in ws:
+        if True:
+            for a, w in pairs:
                 k = (x0.tobytes(), a.tobytes(), w.tobytes())
                 if k in seen:
                     continue
